@@ -24,6 +24,8 @@ def run(rep):
     cr.rule_skel(rep, "C17.skel")
     cr.rule_fold(rep, "C17.type", "C17.vocab")
     ms.rule_inst(rep, "C17.inst")
+    # "the running id counter": one generator for the whole stream, advanced by one per id and never set back
+    ms.rule_generator(rep, "C17.gen")
     ms.rule_parse_resets(rep, "C17.reset")
     mr.rule_reset(rep, "C17.builderreset", classes=("gherkin.ast_builder.AstBuilder",))
     # no hidden state: what the property promises for one use must hold for every later use as well
